@@ -33,6 +33,7 @@ func init() {
 		Rule: "parts: (A) request bodies (seeded sequences of action/document lines: generated JSON objects of every shape, non-object values, blank lines, CRLF, missing trailing newline, lines around the max-document-size/reader-buffer limit, " +
 			"clearly malformed lines, grey-zone JSON; plain or gzip) through the real BulkHandler.ServeHTTP -> bulk.Ingestor -> recording storage client (a third forwards to a real store and fetches); " +
 			"oracle: status, number of created items, exactly one or zero StoreDocuments calls, decoded docs payload = the expected lines' bytes in order, each meta carries its document's size; " +
+			"(C) 3-8 clients x 12 requests in flight at once through one ingestor to a storage client whose calls last 300 us and re-read their payload before returning: no payload changes while in flight, every request's storage call carries exactly its own documents; " +
 			"(B) time rule through Ingestor.ProcessDocuments with an explicit request time: every field name x format, offsets at +-drift, +-drift+-1ms, unparsable values. " +
 			"case = one request; non-trivial = the body mixes stored and skipped/rejecting lines (A) or a parsable time field decides the ID (B); distinct = (line class multiset, encoding, outcome | field, format, offset class)",
 		Assumptions: []string{
@@ -50,6 +51,9 @@ type recClient struct {
 	calls []recCall
 	fwd   *sdb.Store
 	fail  error
+	// hold > 0: the call lasts that long and re-reads the payload before returning; mutated counts payloads that changed meanwhile
+	hold    time.Duration
+	mutated int
 }
 
 type recCall struct {
@@ -58,9 +62,19 @@ type recCall struct {
 }
 
 func (c *recClient) StoreDocuments(ctx context.Context, count int, docs, metas []byte) error {
+	d0, m0 := bytes.Clone(docs), bytes.Clone(metas)
 	c.mu.Lock()
-	c.calls = append(c.calls, recCall{count, bytes.Clone(docs), bytes.Clone(metas)})
+	c.calls = append(c.calls, recCall{count, d0, m0})
 	c.mu.Unlock()
+	if c.hold > 0 {
+		// a store call takes time (network, retries): the payload handed over must stay what it was until the call returns
+		time.Sleep(c.hold)
+		if !bytes.Equal(docs, d0) || !bytes.Equal(metas, m0) {
+			c.mu.Lock()
+			c.mutated++
+			c.mu.Unlock()
+		}
+	}
 	if c.fwd != nil {
 		return c.fwd.BulkRaw(ctx, count, bytes.Clone(docs), bytes.Clone(metas))
 	}
@@ -275,6 +289,89 @@ func runC10(w *h.W, batch int) {
 
 	// ---------- (B) time rule
 	c10TimeRule(w, r, mkIngestor, drift, fdrift)
+
+	// ---------- (C) several requests in flight through one ingestor: each one's storage call must carry exactly its own documents
+	cr := r.Fork()
+	crec := &recClient{hold: 300 * time.Microsecond}
+	ching := proxyapi.NewBulkHandler(mkIngestor(crec), maxDoc)
+	clients, perClient := cr.Range(3, 8), 12
+	type creq struct {
+		lines []c10Line
+		body  []byte
+		rw    *httptest.ResponseRecorder
+	}
+	reqs := make([][]*creq, clients)
+	for ci := range reqs {
+		for k := 0; k < perClient; k++ {
+			q := &creq{}
+			var sb strings.Builder
+			for j := cr.Range(1, 12); j > 0; j-- {
+				t := mkValid(cr, 0)
+				if len(t) > maxDoc {
+					continue
+				}
+				q.lines = append(q.lines, c10Line{text: t, class: "valid"})
+				sb.WriteString(`{"index":{}}` + "\n" + t + "\n")
+			}
+			q.body = []byte(sb.String())
+			if len(q.lines) > 0 {
+				reqs[ci] = append(reqs[ci], q)
+			}
+		}
+	}
+	cdesc := map[string]any{"part": "concurrent", "clients": clients, "requests_per_client": perClient}
+	if w.Begin(cdesc) {
+		var wg sync.WaitGroup
+		for ci := range reqs {
+			wg.Add(1)
+			go func(mine []*creq) {
+				defer wg.Done()
+				for _, q := range mine {
+					q.rw = httptest.NewRecorder()
+					ching.ServeHTTP(q.rw, httptest.NewRequest("POST", "/_bulk", bytes.NewReader(q.body)))
+				}
+			}(reqs[ci])
+		}
+		wg.Wait()
+		calls := crec.take()
+		bad := ""
+		if crec.mutated > 0 {
+			bad = fmt.Sprintf("payload-mutated-in-flight: %d storage calls saw their payload change before the call returned", crec.mutated)
+		}
+		// a call belongs to the request whose first document it starts with
+		byFirst := map[string]recCall{}
+		for _, c := range calls {
+			if docs, err := sdb.DecodeDocsBlock(c.docs); err == nil && len(docs) > 0 {
+				byFirst[string(docs[0])] = c
+			} else if bad == "" {
+				bad = "bad-payload: a docs block of a concurrent request does not decode"
+			}
+		}
+		n := 0
+		for _, mine := range reqs {
+			for _, q := range mine {
+				n++
+				if bad != "" {
+					break
+				}
+				c, ok := byFirst[q.lines[0].text]
+				if !ok {
+					bad = fmt.Sprintf("lost-request: no storage call starts with the first document of an accepted request (status %d): %.80q", q.rw.Code, q.lines[0].text)
+					break
+				}
+				bad = c10Judge(q.lines, q.rw, []recCall{c}, map[string]int{"valid": len(q.lines)})
+			}
+		}
+		w.Count("concurrent_requests", int64(n))
+		if bad == "" && len(calls) != n {
+			bad = fmt.Sprintf("store-calls: %d StoreDocuments calls for %d requests", len(calls), n)
+		}
+		if bad != "" {
+			w.Violation("C10:"+strings.SplitN(bad, ":", 2)[0]+":concurrent", map[string]any{"diff": bad, "case": cdesc})
+		} else {
+			w.Held(fmt.Sprintf("concurrent|c%d", clients), true)
+		}
+	}
 }
 
 // c10Judge compares the handler's response and the recorded storage call with what the body's lines demand.
